@@ -54,4 +54,34 @@ CLAIMS = {
         "note": TB + "Compression choices of the output and letter case are not compared.",
         "technique": "TLC equivalence check of two TLA+ presentations of the replacement rule + TLC trace validation of rename results against a TLA+ post-condition",
     },
+    "C08": {
+        "text": "Every operation of a recorded history is one event carrying the bytes before and after, every public field of the object, a fresh parse of the resulting bytes and, for cursor scripts, bytes + fields + the cursor's accessors after every sub-step. TLC evaluates C08's state predicate after every step and sub-step (spec/History.tla StateWhy, ViewWhy, Designates): bytes acceptable with the two caller-breakable clauses lifted and, when those hold, accepted by the real parser with the same view; section offsets, EDNS offset/count/version/flags/rcode and the cached question equal to Message!FreshView of the bytes; maybe_compressed false only when no pointer is left; a cursor that changed or kept a record still designates it and advancing yields the record that follows. Histories: every single operation (header setters, question getters, recompute, insert into each section, insert of a question, rename, cursor scripts with set_raw_name / delete / double delete / in-place decompression / TTL / address / advance at positions 1..3 of every section incl. the OPT record) on 8 hand-built and TLA+-born packets and 2 synthesised ones, pairs of operations after 16 state-changing first operations, fill-up histories across the size limit, and seeded random histories of 3..14 operations.",
+        "design_ref": "DESIGN.md section 5, C08",
+        "note": TB + "maybe_compressed is an implication; 'exactly one question' and QR gating are lifted (DESIGN.md C08 (ii)); max_payload is not part of the compared view.",
+        "technique": "TLC trace validation of recorded mutation histories against a TLA+ step relation (state predicate evaluated after every step)",
+    },
+    "C09": {
+        "text": "Same recorded histories as C08; TLC compares the decoded message before and after every step with the effect written in spec/History.tla (EffectWhy, SubsWhy): set_raw_name replaces only that owner, delete removes only that record and its count, insert appends the denoted record (the event carries the structured record the text denotes) at the end of the chosen section, TTL / address setters change only that field, header setters only their field, rename maps every name through Rename!Replace (case-insensitively, since compression intervenes), everything else byte-identical after decompression; operations are also required to succeed when no stated reason for failure applies.",
+        "design_ref": "DESIGN.md section 5, C09",
+        "note": TB,
+        "technique": "TLC trace validation of recorded mutation histories against per-operation effects on the decoded message",
+    },
+    "C10": {
+        "text": "Same recorded histories as C08 with failure-inducing arguments in the alphabet (second question, malformed / out-of-range record text, names with a 64-byte label, a forbidden byte or truncated, operations through a deleted record's cursor, renames that overflow 255 bytes, insertions crossing 8192 bytes from every starting size, operations that must re-parse a packet whose question was deleted or whose QR bit was cleared). For every step that reports an error TLC checks that the decoded message is unchanged and that C08's predicate still holds; for insert that a successful result is never larger than 8192 bytes and that an insertion whose decompressed size plus the record exceeds 8192 fails with 'Packet too large'. The evidence counts failed steps per operation and the check refuses to pass if insert, question insert or rename never failed.",
+        "design_ref": "DESIGN.md section 5, C10",
+        "note": TB,
+        "technique": "TLC trace validation of failed operations in recorded histories (message unchanged, state predicate, size limit)",
+    },
+    "C12": {
+        "text": "TLC checks on all 65 536 words x a covering argument set that the field, mask and arithmetic presentations of every setter coincide, that set_flags ignores the upper argument half, keeps opcode/rcode and decomposes as f(w,a) = f(w,0) | f(0,a). The real setters and getters are run from every initial word of the tier (quick 4096, thorough all 65 536) with vectors of arguments (covering set, per-bit upper-half variants, all 256 rcode/opcode values for covering words, every 16-bit argument against w = 0 and 0xffff) and TLC validates every resulting word, that no other byte of the packet changed, and every getter; the thorough tier additionally sweeps all 2^32 (w, a) pairs inside the implementation for the decomposition, which together with the validated tables covers all pairs.",
+        "design_ref": "DESIGN.md section 5, C12",
+        "note": TB + "'No other byte changed' is a byte comparison made by the driver; all 2^32 pairs are covered by decomposition, not by 2^32 TLC evaluations.",
+        "technique": "TLC exhaustive check of the TLA+ header setters + TLC trace validation of batched setter/getter tables of the real code",
+    },
+    "C14": {
+        "text": "TLC checks that the character-level machine of the converter obeys the declarative statement (must-accept, must-reject, result well-formed with exactly the input's labels plus the zone) on every string of up to 7 bytes over {a, -, ., 0xC8} with and without a zone at scaled caps. The real raw_name_from_str is run on every string of length <= 4 (thorough 6) over {a,B,_,.,-,7} with and without a default zone, on label lengths 58..66, totals 236..262, other bytes and random LDH names; TLC validates verdict and labels against the specification and, after giving the converted name to a record, that name() returns the lower-cased input without its trailing dot (followed by the zone).",
+        "design_ref": "DESIGN.md section 5, C14",
+        "note": TB + "Texts in neither must-set (63-byte labels, wire 254..255, bytes >= 128, control characters) are not judged on their verdict.",
+        "technique": "TLC model checking of a TLA+ converter machine against the declarative statement + TLC trace validation of conversions and read-backs",
+    },
 }
